@@ -2,6 +2,7 @@ import Nstd.Path.FsCreate
 import Nstd.Path.FsFail
 import Nstd.Path.FsUnlink
 import Nstd.Path.FsCopy
+import Nstd.Path.FsRename
 /-
   Property C19, file-system part: theorems about the algorithms of File.cpp / Directory.cpp
   (Nstd/Path/FsLib.lean) over the ASSUMED POSIX semantics of Nstd/Path/Fs.lean, for all worlds
@@ -31,6 +32,17 @@ theorem copy_bytes_exact (fs : Fs) (src dst : Bytes) (fie : Bool) (fault : SfFau
       (∀ q, q ≠ P → (fileCopy fs src dst fie fault).1.get q = fs.get q) ∧
       ((∃ d0, fs.get P = some (.file d0)) ∨ (∃ pa n, resolve fs dst (!fie) = .missing pa n ∧ P = pa ++ [n])) :=
   fileCopy_exact fs src dst fie fault h
+
+/-- … across rename: a File::rename (with or without failIfExists) of a file or symbolic link that reports
+    success in a well-formed world has moved exactly that entry, bytes unchanged, to the destination `pt`;
+    the source path is gone and no other entry of the world changed. -/
+theorem rename_bytes_exact (fs : Fs) (frm to : Bytes) (fie : Bool) (hwf : WF fs) (pf : CPath) (e : Entry)
+    (hsrc : resolve fs frm false = .found pf e) (he : e ≠ .dir)
+    (h : (fileRename fs frm to fie).2 = true) :
+    ∃ pt, pt ≠ [] ∧ (fileRename fs frm to fie).1.get pt = some e ∧
+      (pt ≠ pf → (fileRename fs frm to fie).1.get pf = none) ∧
+      (∀ q, q ≠ pt → q ≠ pf → (fileRename fs frm to fie).1.get q = fs.get q) :=
+  fileRename_exact fs frm to fie hwf pf e hsrc he h
 
 /-- Directory::create returns true exactly when the directory exists afterwards — for every world,
     every path string and every injected mkdir fault. -/
@@ -136,6 +148,8 @@ example : PlainParent exWorld [97] [[115], [97]] :=
 example : (dirUnlinkTop exWorld [97] true).2 = true := by decide
 example : (dirUnlinkTop exWorld [97] true).1.get [[111], [111, 100], [120]] = some (.file [88]) := by decide
 example : (fileRename ⟨[([[115]], .dir)]⟩ [122] [110] true).2 = false := by decide
+example : (fileRename exWorld [97, 47, 102] [104] true).2 = true := by decide
+example : resolve exWorld [97, 47, 102] false = .found [[115], [97], [102]] (.file [1]) := by rfl
 example : (fileCopy ⟨[([[115]], .dir), ([[115], [102]], .file [1, 2])]⟩ [102] [103] true .half).2.1 = false := by decide
 example : (fileCopy ⟨[([[115]], .dir), ([[115], [102]], .file [1, 2])]⟩ [102] [103] true .none).2.1 = true := by decide
 example : (dirCreateTop ⟨[([[115]], .dir)]⟩ [97, 47, 98] none).2.1 = true := by decide
